@@ -87,6 +87,12 @@ add("C12", "exploration",
     "deterministic simulation: batched stream vs per-frame reference runs (refinement against a sequential reference)",
     "DESIGN.md section 5 C12")
 
+add("C14", "exploration",
+    "Seeded points of the model-configuration grid (UNet / ConvNeXt / Swin-T x strides x stem x filters_rate x convs_per_block x up_interpolate x middle_block x head types incl. bottom-up with differing strides), normalised by check_output_strides, assembled with the real Model and driven through histories of eval-mode forward calls of differing batch/size with RNG jumps and batch permutations; output count/channels/spatial size must equal the shapes the target generators produce and every frame must equal a pristine deep copy's output on that frame alone.",
+    "Validity set fixed from docs/code structure (head strides < max_stride; ConvNeXt/Swin presets with filters_rate 2 and max_stride = 8*stem_patch_stride); two documented UNet options that cannot run are listed as known findings; small filter counts; CPU eval mode.",
+    "deterministic simulation of call histories over assembled models with a pristine-copy reference (plus seeded sampling of the configuration grid)",
+    "DESIGN.md section 5 C14")
+
 PENDING = ["C02","C03","C04","C09","C10","C11","C12","C14","C18","C19"]
 
 def main():
